@@ -34,3 +34,27 @@ package consul
 //@ ensures[expired-never-honoured] err == nil ==> ident != nil && !ident.IsExpired(lastNow())
 //@ ensures[error-no-roles] err != nil ==> len(roles) == 0
 //@ loop 1 invariant[retries-carry-an-error] i >= 0 && (i > 0 ==> lastErr != nil)
+
+//@ file leader_connect_ca.go
+
+// SignCertificate talks to the CA provider (X.509, rate limiters, raft): outside the verified subset. ASSUMED
+// contract: arbitrary result. What is proved below is the gate in front of it.
+//@ func CAManager.SignCertificate
+//@ trusted
+//@ results issued, signErr
+
+//@ func CAManager.AuthorizeAndSignCertificate
+//@ props C12
+//@ results cert, err
+//@ requires c != nil && csr != nil && c.serverConf != nil
+//@ ensures[exactly-one-identity] err == nil ==> len(csr.URIs) == 1 && len(csr.EmailAddresses) == 0
+//@ ensures[identity-parsed] err == nil ==> ret1[error](connect.ParseCertURI(csr.URIs[0])) == nil
+//@ ensures[supported-kind] err == nil ==> is[*connect.SpiffeIDService](ret0[connect.CertURI](connect.ParseCertURI(csr.URIs[0]))) || is[*connect.SpiffeIDAgent](ret0[connect.CertURI](connect.ParseCertURI(csr.URIs[0]))) || is[*connect.SpiffeIDMeshGateway](ret0[connect.CertURI](connect.ParseCertURI(csr.URIs[0]))) || is[*connect.SpiffeIDServer](ret0[connect.CertURI](connect.ParseCertURI(csr.URIs[0])))
+//@ ensures[service-needs-service-write] err == nil && is[*connect.SpiffeIDService](ret0[connect.CertURI](connect.ParseCertURI(csr.URIs[0]))) ==> authz.ToAllowAuthorizer().ServiceWriteAllowed(as[*connect.SpiffeIDService](ret0[connect.CertURI](connect.ParseCertURI(csr.URIs[0]))).Service, &acl.AuthorizerContext{}) == nil
+//@ ensures[service-same-datacenter] err == nil && is[*connect.SpiffeIDService](ret0[connect.CertURI](connect.ParseCertURI(csr.URIs[0]))) ==> as[*connect.SpiffeIDService](ret0[connect.CertURI](connect.ParseCertURI(csr.URIs[0]))).Datacenter == c.serverConf.Datacenter
+//@ ensures[agent-needs-node-write] err == nil && is[*connect.SpiffeIDAgent](ret0[connect.CertURI](connect.ParseCertURI(csr.URIs[0]))) ==> authz.ToAllowAuthorizer().NodeWriteAllowed(as[*connect.SpiffeIDAgent](ret0[connect.CertURI](connect.ParseCertURI(csr.URIs[0]))).Agent, &acl.AuthorizerContext{}) == nil
+//@ ensures[agent-same-datacenter] err == nil && is[*connect.SpiffeIDAgent](ret0[connect.CertURI](connect.ParseCertURI(csr.URIs[0]))) ==> as[*connect.SpiffeIDAgent](ret0[connect.CertURI](connect.ParseCertURI(csr.URIs[0]))).Datacenter == c.serverConf.Datacenter
+//@ ensures[mesh-gateway-needs-mesh-write] err == nil && is[*connect.SpiffeIDMeshGateway](ret0[connect.CertURI](connect.ParseCertURI(csr.URIs[0]))) ==> authz.ToAllowAuthorizer().MeshWriteAllowed(&acl.AuthorizerContext{}) == nil
+//@ ensures[mesh-gateway-same-datacenter] err == nil && is[*connect.SpiffeIDMeshGateway](ret0[connect.CertURI](connect.ParseCertURI(csr.URIs[0]))) ==> as[*connect.SpiffeIDMeshGateway](ret0[connect.CertURI](connect.ParseCertURI(csr.URIs[0]))).Datacenter == c.serverConf.Datacenter
+//@ ensures[server-needs-acl-write] err == nil && is[*connect.SpiffeIDServer](ret0[connect.CertURI](connect.ParseCertURI(csr.URIs[0]))) ==> authz.ToAllowAuthorizer().ACLWriteAllowed(&acl.AuthorizerContext{}) == nil
+//@ ensures[server-same-datacenter] err == nil && is[*connect.SpiffeIDServer](ret0[connect.CertURI](connect.ParseCertURI(csr.URIs[0]))) ==> as[*connect.SpiffeIDServer](ret0[connect.CertURI](connect.ParseCertURI(csr.URIs[0]))).Datacenter == c.serverConf.Datacenter
